@@ -130,6 +130,8 @@ Fixpoint first_some {A B} (f : A -> option B) (l : list A) : option B :=
   | x :: r => match f x with Some y => Some y | None => first_some f r end
   end.
 
+Definition is_alt (e : expr) : bool := match e with Alt _ => true | _ => false end.
+
 (* ---------- the denotation ---------- *)
 
 Fixpoint sem (e : expr) (fuel g : nat) (st : sst) {struct e} : list sst :=
@@ -179,8 +181,21 @@ Fixpoint sem (e : expr) (fuel g : nat) (st : sst) {struct e} : list sst :=
                end) g es
         | _ => try_alt c g
         end in
+      (* an alternation of different lengths is read as an alternation of look-behinds
+         (Oniguruma): every alternative that matches is a way to succeed, in order *)
+      let split_all : list sst :=
+        match c with
+        | Alt es =>
+            (fix go (g : nat) (l : list expr) : list sst :=
+               match l with
+               | [] => []
+               | x :: r => match try_alt x g with Some s => [(ix, snd s)] | None => [] end
+                           ++ go (g + ngroups x) r
+               end) g es
+        | _ => []
+        end in
       match la, found with
-      | LookBehind, Some s' => [(ix, snd s')]
+      | LookBehind, Some s' => if is_alt c && negb (const_size c) then split_all else [(ix, snd s')]
       | LookBehind, None => []
       | _, Some _ => []
       | _, None => [st]
@@ -288,8 +303,21 @@ Fixpoint semk (e : expr) (fuel g : nat) (st : sst) (k : K) {struct e} : option s
                end) g es
         | _ => try_alt c g
         end in
+      let split_all : option sst :=
+        match c with
+        | Alt es =>
+            (fix go (g : nat) (l : list expr) : option sst :=
+               match l with
+               | [] => None
+               | x :: r => match try_alt x g with
+                           | Some s => orelse (k (ix, snd s)) (fun _ => go (g + ngroups x) r)
+                           | None => go (g + ngroups x) r
+                           end
+               end) g es
+        | _ => None
+        end in
       match la, found with
-      | LookBehind, Some s' => k (ix, snd s')
+      | LookBehind, Some s' => if is_alt c && negb (const_size c) then split_all else k (ix, snd s')
       | LookBehind, None => None
       | _, Some _ => None
       | _, None => k st
